@@ -40,7 +40,7 @@ const (
 )
 
 type instr struct {
-	Op   string `json:"op"` // send recv1 drain throw
+	Op   string `json:"op"` // send recv1 drain throw only
 	Band int    `json:"band,omitempty"`
 	X    uint64 `json:"x,omitempty"`
 	Filt string `json:"filt,omitempty"` // all | no | m/r
@@ -78,6 +78,8 @@ func (i instr) enc(w *words) {
 			ht = 1
 		}
 		w.put(4, fk, i.M, i.R, ht, i.TX, i.Tag)
+	case "only":
+		w.put(6, 1, uint64(i.Band)) // join = 1: the builtin at HEAD (the judge collapses the stage anyway)
 	default:
 		w.put(5, i.Tag)
 	}
@@ -329,6 +331,12 @@ func render(p []stageProg, y *yielder) string {
 					brk, k, filt, tid, y.maybe(), brk, k, y.maybe(), k, brk, brk, in.Tag, k, brk, brk)
 			case "throw":
 				fmt.Fprintf(&sb, "fail t%d; ", in.Tag)
+			case "only":
+				if in.Band == bandV {
+					sb.WriteString("only-values; ")
+				} else {
+					sb.WriteString("only-bytes; ")
+				}
 			}
 		}
 		fmt.Fprintf(&sb, "%snop } catch e { verif:caught %d $e; fail $e }; verif:done %d }", y.maybe(), k, k)
@@ -397,13 +405,62 @@ func genFilt(c *reg.Ctx) instr {
 // (checks/C18.md, observation "cross-band wait"; C18_cross_band_wait_can_block).
 // Such pipelines are outside the property's quantifier and are never generated.
 func safeForSingleBandReader(prev stageProg, b int) bool {
+	if prev.isFilter() {
+		return prev[0].Band == b
+	}
 	return prev.count("drain", -1) == 0 && prev.count("send", 1-b) <= 24
+}
+
+func (p stageProg) isFilter() bool { return len(p) == 1 && p[0].Op == "only" }
+
+// a band filter for band b is placed only behind a stage that is no filter and
+// writes band b alone (the judge collapses the filter: C18.collapse)
+func filterBandFor(prev stageProg) (int, bool) {
+	if prev.isFilter() || prev.count("drain", -1) > 0 || prev.count("only", -1) > 0 {
+		return 0, false
+	}
+	nv, nb := prev.count("send", bandV), prev.count("send", bandB)
+	switch {
+	case nv > 0 && nb == 0:
+		return bandV, true
+	case nb > 0 && nv == 0:
+		return bandB, true
+	}
+	return 0, false
+}
+
+// reads its input to the end (whatever happens downstream)?
+func readsToEnd(p stageProg) bool {
+	for _, in := range p {
+		switch in.Op {
+		case "drain", "only":
+			return true
+		case "send":
+		default:
+			return false
+		}
+	}
+	return false
+}
+
+// the recorded finding: a band filter that has been told "reader gone" joins its
+// helper goroutine, which only ends when the upstream stage closes — but that
+// stage is blocked on the band the filter no longer reads.
+const filterClass = "band-filter-joins-drain-before-early-exit"
+
+func inFilterClass(st []stageProg) bool {
+	for k := 1; k+1 < len(st); k++ {
+		if st[k].isFilter() && st[k-1].count("send", st[k][0].Band) > 32 && !readsToEnd(st[k+1]) {
+			return true
+		}
+	}
+	return false
 }
 
 func genPipe(c *reg.Ctx) pipe {
 	n := 2 + c.Rand.Intn(5)
 	var p pipe
-	early, throws := false, false
+	early, throws, filters := false, false, false
 	maxItems := 0
 	for k := 0; k < n; k++ {
 		var st stageProg
@@ -411,9 +468,24 @@ func genPipe(c *reg.Ctx) pipe {
 		if k == 0 && kind < 6 {
 			kind = 0
 		}
+		if k > 0 && c.Rand.Intn(5) == 0 {
+			if b, ok := filterBandFor(p.Stages[k-1]); ok {
+				// only-values / only-bytes
+				p.Stages = append(p.Stages, stageProg{{Op: "only", Band: b}})
+				filters = true
+				continue
+			}
+		}
 		switch {
 		case kind == 0: // producer
 			nv, nb := amount(c), amount(c)
+			if c.Rand.Intn(3) == 0 { // one band only
+				if c.Rand.Intn(2) == 0 {
+					nv = 0
+				} else {
+					nb = 0
+				}
+			}
 			if nb >= 34 && c.Rand.Intn(3) == 0 {
 				p.BigPad = true
 			}
@@ -491,6 +563,12 @@ func genPipe(c *reg.Ctx) pipe {
 	}
 	if p.BigPad {
 		p.Class += "/bigbytes"
+	}
+	if filters {
+		p.Class += "/filter"
+	}
+	if inFilterClass(p.Stages) {
+		p.Class = filterClass
 	}
 	return p
 }
@@ -580,10 +658,19 @@ func runOnce(c *reg.Ctx, p pipe, procs, yieldRate int) {
 // hangs counts watchdog hits of generated pipelines; after two the run stops
 // (every further pipeline would cost another watchdog period).
 var hangs int
+var filterRuns int
 
 func runOnceW(c *reg.Ctx, p pipe, procs, yieldRate int, watchdog time.Duration) {
 	if hangs >= 2 {
 		return
+	}
+	if p.Class == filterClass {
+		// known to hang at HEAD: short watchdog, at most 4 such runs per check
+		if filterRuns >= 4 {
+			return
+		}
+		filterRuns++
+		watchdog = 4 * time.Second
 	}
 	t0 := time.Now()
 	defer func() { if os.Getenv("C18_TIMING") != "" { fmt.Fprintf(os.Stderr, "T %8.1fms procs=%d rate=%d %s\n", float64(time.Since(t0).Microseconds())/1000, procs, yieldRate, p.Class) } }()
@@ -617,7 +704,9 @@ func runOnceW(c *reg.Ctx, p pipe, procs, yieldRate int, watchdog time.Duration) 
 		collect()
 	case <-time.After(watchdog):
 		c.Count("HANG")
-		hangs++
+		if p.Class != filterClass {
+			hangs++
+		}
 		c.Emit(reg.Case{Direct: fmt.Sprintf("pipeline did not finish within %v (deadlock): stages ended so far = ", watchdog) +
 			strings.Join(func() []string { rec.mu.Lock(); defer rec.mu.Unlock(); return append([]string{}, rec.exits...) }(), ","),
 			Desc:  desc{Code: code, GoMaxProcs: procs, YieldRate: yieldRate},
@@ -692,6 +781,18 @@ func run(c *reg.Ctx) {
 		for _, pr := range procsChoices {
 			runOnce(c, p, pr, 3)
 		}
+	}
+	// band filters: harmless positions, then the shape of the recorded finding
+	// (`range 1000 | only-values | nop`)
+	onlyV, onlyB := stageProg{{Op: "only", Band: bandV}}, stageProg{{Op: "only", Band: bandB}}
+	for _, p := range []pipe{
+		{Stages: []stageProg{many(0, 70, 0), onlyV, sink}, Class: "read-to-end/overflow/filter"},
+		{Stages: []stageProg{many(0, 0, 60), onlyB, fwd, {}}, BigPad: true, Class: "early-exit/overflow/bigbytes/filter"},
+		{Stages: []stageProg{many(0, 20, 0), onlyV, {}}, Class: "early-exit/filter"},
+		{Stages: []stageProg{many(0, 70, 0), onlyV, {}}, Class: filterClass},
+		{Stages: []stageProg{many(0, 0, 60), onlyB, {{Op: "throw", Tag: 102}}}, BigPad: true, Class: filterClass},
+	} {
+		runOnce(c, p, procsChoices[c.Rand.Intn(len(procsChoices))], 3)
 	}
 	for i := 0; i < c.N/3+1; i++ {
 		p := genPipe(c)
